@@ -196,7 +196,8 @@ class ComplementProjector(LinearOperator):
     _matvec = _matmat = _apply
 
     def _apply_left(self: LinearOperator, v: np.ndarray) -> np.ndarray:
-        return v - self._left_vecs.conj() @ (self._vecs.T @ v)
+        # Adjoint action, (1 - R L^†)^† v = v - L (R^† v)
+        return v - self._left_vecs @ (self._vecs.conj().T @ v)
 
     _rmatvec = _rmatmat = _apply_left
 
